@@ -897,7 +897,9 @@ def install_std_stubs(E):
     for fn, ti in (('_ZSt20__throw_length_errorPKc', '_ZTISt12length_error'), ('_ZSt19__throw_logic_errorPKc', '_ZTISt11logic_error'),
                    ('_ZSt20__throw_out_of_rangePKc', '_ZTISt12out_of_range'), ('_ZSt24__throw_out_of_range_fmtPKcz', '_ZTISt12out_of_range'),
                    ('_ZSt17__throw_bad_allocv', '_ZTISt9bad_alloc'), ('_ZSt28__throw_bad_array_new_lengthv', '_ZTISt9bad_alloc'),
-                   ('_ZSt16__throw_bad_castv', '_ZTISt8bad_cast'), ('_ZSt25__throw_bad_function_callv', '_ZTISt17bad_function_call')):
+                   ('_ZSt16__throw_bad_castv', '_ZTISt8bad_cast'), ('_ZSt25__throw_bad_function_callv', '_ZTISt17bad_function_call'),
+                   ('_ZSt24__throw_invalid_argumentPKc', '_ZTISt16invalid_argument'), ('_ZSt21__throw_runtime_errorPKc', '_ZTISt13runtime_error'),
+                   ('_ZSt20__throw_domain_errorPKc', '_ZTISt12domain_error'), ('_ZSt22__throw_overflow_errorPKc', '_ZTISt14overflow_error'), ('_ZSt19__throw_range_errorPKc', '_ZTISt11range_error')):
         S[fn] = mk_thrower(ti)
     # std type_info hierarchy for externally defined typeinfos
     STD_BASE = {'_ZTISt13runtime_error': '_ZTISt9exception', '_ZTISt11logic_error': '_ZTISt9exception', '_ZTISt12out_of_range': '_ZTISt11logic_error',
@@ -1057,6 +1059,24 @@ def install_string_stubs(E):
     S[PFX + 'aSEOS4_'] = move_assign
     def copy_ctor(E, st, fr, I, A): E.mk_empty_string(E, st, A[0]); s_set(E, st, A[0], s_bytes(E, st, A[1])); return None
     S[PFX + 'C2ERKS4_'] = copy_ctor; S[PFX + 'C1ERKS4_'] = copy_ctor
+    def compare_s(E, st, fr, I, A):
+        a = s_bytes(E, st, A[0]); b = s_bytes(E, st, A[1])
+        if any(is_sym(x) for x in a + b):
+            r = bv((len(a) > len(b)) - (len(a) < len(b)) & 0xffffffff, 32)
+            for p, q in reversed(list(zip(a, b))):
+                P = bv(p, 8); Q = bv(q, 8)
+                r = z3.If(P == Q, r, z3.If(z3.UGT(P, Q), z3.BitVecVal(1, 32), z3.BitVecVal(0xffffffff, 32)))
+            return simp(r)
+        x = bytes(a); y = bytes(b)
+        return mask((x > y) - (x < y), 32)
+    def find_cstr(E, st, fr, I, A):
+        # find(const char* s, size_type pos, size_type n)
+        if is_sym(A[2]) or is_sym(A[3]): raise Unsupported('symbolic std::string::find arguments')
+        h = s_bytes(E, st, A[0]); n = [E.load(st, A[1] + i, 1) for i in range(A[3])]
+        if any(is_sym(x) for x in h + n): raise Unsupported('std::string::find over symbolic characters')
+        i = bytes(h).find(bytes(n), A[2])
+        return i if i >= 0 else (1 << 64) - 1
+    S[PFX.replace('_ZN', '_ZNK') + '7compareERKS4_'] = compare_s; S[PFX.replace('_ZN', '_ZNK') + '4findEPKcmm'] = find_cstr
     def swap_s(E, st, fr, I, A):
         a = s_bytes(E, st, A[0]); b = s_bytes(E, st, A[1]); s_set(E, st, A[0], b); s_set(E, st, A[1], a); return None
     S[PFX + '4swapERS4_'] = swap_s
